@@ -8,6 +8,9 @@
  *     [<bufsize> <refuse%> <sseed>]
  *     kind 0 constant p1 (per component: p1, p1/2+3, MAX-p1, p1/3)   1 uniform noise   2 two-level blocks (edges)
  *          3 gradient   4 extremes (0/MAX checker of period p1)   5 smooth field + noise of amplitude p1
+ *          6 coefficient-support-aimed blocks (every block = exact inverse DCT of a sparse coefficient set): p1 = 0 AC only in
+ *            one row r (r cycles over the blocks), 1 only in one column c, 2 only in the last row, 3 only in the last column,
+ *            4 DC only, 5 DC + one coefficient (position cycles 1..63)
  *     ntab tables are installed with jpeg_add_quant_table(scale 100, force_baseline FALSE), or,
  *     when <direct> is 1, by writing quant_tbl_ptrs[t]->quantval[] (values up to 65535).
  *     With the three optional fields the stream is written through a SUSPENDING destination manager
@@ -41,6 +44,7 @@
 #include <stdlib.h>
 #include <string.h>
 #include <setjmp.h>
+#include <math.h>
 #include "jpeglib.h"
 #include "jerror.h"
 
@@ -94,6 +98,35 @@ static unsigned short *gen_image(int bits, int nc, int w, int h, int kind, int p
   for (c = 0; c < 4; c++) {
     base[c] = (int)(rnd() % (max + 1)); lo[c] = (int)(rnd() % (max + 1)); hi[c] = (int)(rnd() % (max + 1));
     ph[c] = (int)(rnd() % 64); fx[c] = 1 + (int)(rnd() % 5); fy[c] = 1 + (int)(rnd() % 5);
+  }
+  if (kind == 6) {      /* per 8x8 block: samples = inverse DCT of coefficients with a chosen support */
+    int bx, by, u, v2, nbx = (w + 7) / 8, blk = 0; double scale = (max + 1) / 256.0;
+    for (c = 0; c < nc; c++) for (by = 0; by * 8 < h; by++) for (bx = 0; bx < nbx; bx++, blk++) {
+      double co[8][8]; int r = blk % 8, pos = 1 + blk % 63;
+      memset(co, 0, sizeof(co));
+      for (u = 0; u < 8; u++) {       /* u = horizontal frequency along the chosen row / vertical along the chosen column */
+        double a = ((rnd() % 3) ? 1 : 0) * ((rnd() & 1) ? 1.0 : -1.0) * (20 + (double)(rnd() % 41)) * scale;
+        if (p1 == 0 && r > 0) co[r][u] = a;
+        else if (p1 == 1 && r > 0) co[u][r] = a;
+        else if (p1 == 2) co[7][u] = a;
+        else if (p1 == 3) co[u][7] = a;
+      }
+      if (p1 == 0 || p1 == 2) co[(p1 == 2) ? 7 : (r ? r : 1)][rnd() % 8] = (40 + (double)(rnd() % 21)) * scale;   /* never empty */
+      if (p1 == 1 || p1 == 3) co[rnd() % 8][(p1 == 3) ? 7 : (r ? r : 1)] = -(40 + (double)(rnd() % 21)) * scale;
+      if (p1 == 5) co[pos / 8][pos % 8] = ((rnd() & 1) ? 1.0 : -1.0) * (60 + (double)(rnd() % 60)) * scale;
+      co[0][0] = ((double)(rnd() % 129) - 64.0) * 8.0 * scale * 0.5;      /* DC: block mean within +-32 of mid-grey */
+      for (y = 0; y < 8; y++) for (x = 0; x < 8; x++) {
+        double sv = 0.0; int px = bx * 8 + x, py = by * 8 + y, iv;
+        for (v2 = 0; v2 < 8; v2++) for (u = 0; u < 8; u++) if (co[v2][u] != 0.0)
+          sv += co[v2][u] * (v2 ? 0.5 : 0.35355339059327373) * (u ? 0.5 : 0.35355339059327373) *
+                cos((2 * y + 1) * v2 * 3.14159265358979323846 / 16) * cos((2 * x + 1) * u * 3.14159265358979323846 / 16);
+        iv = (int)floor(sv + (max + 1) / 2 + 0.5);
+        if (iv < 0) iv = 0;
+        if (iv > max) iv = max;
+        if (px < w && py < h) src[(py * w + px) * nc + c] = (unsigned short)iv;
+      }
+    }
+    return src;
   }
   for (y = 0; y < h; y++) for (x = 0; x < w; x++) for (c = 0; c < nc; c++) {
     int v = 0;
